@@ -28,7 +28,7 @@ For each change k = {start}..{start + 2} create the directory {wt}/seeded/{pid}_
   - patch.diff : `git diff` of the change against the clean worktree (apply with `git apply`),
   - demo.py    : a small self-contained program (run as `PYTHONPATH={wt}/src /venv/bin/python demo.py`) that exits 0 on the clean worktree and exits non-zero (with a clear message showing the property violation) when the patch is applied,
   - notes.md   : which part of the property it breaks, what exactly is needed for it to manifest, and the output of the baseline run (the `missing=0` line) with the patch applied.
-After saving each patch, restore the worktree (`git checkout -- src`) so the next patch is independent. Leave the worktree clean (apart from the seeded/ directory) when you finish.
+After saving each patch, restore the worktree (`git checkout -- src`) so the next patch is independent. Never use `git stash` (the stash is shared with other worktrees of the same repository): park a change with `git diff > file` and `git apply file`. Leave the worktree clean (apart from the seeded/ directory) when you finish.
 
 Useful facts: only the standard library, pytest and hypothesis are available offline (no trio, cbor2, msgpack); asyncio is the only async backend installed. Source layout: src/easynetwork/{{serializers,lowlevel,clients,servers,protocol.py,...}}. Relevant files to read first: {', '.join(p['anchors']['files'][:8])}.
 
